@@ -52,7 +52,10 @@ def gen_cases(tier, seed):
         chosen = [universe[i] for i in idx]
         listed = set(finding_cells())
         have = {c["key"] for c in chosen}
-        chosen += [c for c in universe if c["key"] in listed and c["key"] not in have]
+        extra = [c for c in universe if c["key"] in listed and c["key"] not in have]
+        if len(extra) > 8:           # re-observe a sample of the listed cells
+            extra = [extra[i] for i in rng.choice(len(extra), size=8, replace=False)]
+        chosen += extra
     return [{"cell": c, "seed_class": sc, "k": 0} for c in chosen]
 
 
